@@ -130,7 +130,7 @@ fn knobs(run: &mut Run, seed: u64) {
         run.set("naming", f.below(NAMING_KINDS as usize) as i64);
     }
     if f.chance(1, 4) {
-        run.set("buggify_mask", 1 + f.below(3) as i64);
+        run.set("buggify_mask", 1 + f.below(7) as i64);
         run.set("buggify_seed", (f.next() >> 1) as i64);
     }
     // K5: order in which the generators are asserted / split point for add_set
